@@ -164,6 +164,7 @@ def hexval(tok):
 
 
 HEX = re.compile(r"^x[0-9a-f]{8}([0-9a-f]{8})?$")
+NONFINITE = re.compile(r"\bx[7f]ff[0-9a-f]{13}\b|\bx[7f]f[89a-f][0-9a-f]{5}\b")
 
 
 def tok_close(a, b, tol):
@@ -210,6 +211,10 @@ def compare_case(cmds, impl, model, mode, tol):
             out.append(("immut", i, il, ml, spec))
             il = il.split(" !!IMMUT:")[0]
         if mode == "exact" and not (line_representable(ml) and (spec is None or line_representable(spec))):
+            out.append(("inexact", i, il, ml, spec))
+            break
+        if mode != "exact" and (NONFINITE.search(ml) or (spec is not None and NONFINITE.search(spec))):
+            # NaN / infinity: the program left the operations' domain; nothing is claimed there
             out.append(("inexact", i, il, ml, spec))
             break
         if spec is not None and not lines_agree(il, spec, mode, tol):
